@@ -32,6 +32,24 @@ type Options struct {
 	// Bystander adds a third funded wallet on the host node whose transactions
 	// change the accumulator without touching host or renter funds.
 	Bystander bool
+	// SecondHost adds a second, independent host: its own chain manager and
+	// pool (so it cannot see what the first host pooled), wallet, contractor,
+	// key, server and transport.
+	SecondHost bool
+}
+
+// A SecondHost is the second host of a lab.
+type SecondHost struct {
+	Node       *Node
+	Key        types.PrivateKey
+	Wallet     *Wallet
+	Contractor *Contractor
+	Sectors    *testutil.EphemeralSectorStore
+	Settings   *testutil.EphemeralSettingsReporter
+	Server     *rhp.Server
+	T          *Transport
+	Prices     rhp4.HostPrices
+	Addr       types.Address
 }
 
 // A Lab is one host, one renter and the man-in-the-middle between them.
@@ -60,8 +78,9 @@ type Lab struct {
 	HostChain *HostChain
 	RentPool  *RenterPool
 
-	Observer  *Node   // nil unless Options.Observer
-	Bystander *Wallet // nil unless Options.Bystander
+	Observer  *Node       // nil unless Options.Observer
+	Bystander *Wallet     // nil unless Options.Bystander
+	Host2     *SecondHost // nil unless Options.SecondHost
 }
 
 // BasePrices are the host prices used by every lab.
@@ -119,6 +138,22 @@ func NewLab(opt Options) (*Lab, error) {
 			return nil, err
 		}
 	}
+	if opt.SecondHost {
+		h2 := &SecondHost{Key: types.GeneratePrivateKey()}
+		if h2.Node, err = NewNode("host2", n, genesis); err != nil {
+			return nil, err
+		}
+		if h2.Wallet, err = h2.Node.NewWallet("host2", types.GeneratePrivateKey()); err != nil {
+			return nil, err
+		}
+		h2.Addr = h2.Wallet.Address()
+		l.Host2 = h2
+		for i := 0; i < 12; i++ {
+			if err := l.Mine(h2.Addr, 1); err != nil {
+				return nil, err
+			}
+		}
+	}
 	// fund both wallets, one block reward per output
 	for i := 0; i < opt.HostBlocks || i < opt.RenterBlocks; i++ {
 		if opt.Bystander && i < 8 {
@@ -172,6 +207,39 @@ func NewLab(opt Options) (*Lab, error) {
 	}
 	go l.Server.Serve(l.T.Mux(), log)
 
+	if h2 := l.Host2; h2 != nil {
+		h2.Settings = testutil.NewEphemeralSettingsReporter()
+		h2.Settings.Update(rhp4.HostSettings{
+			Release:             "verif-2",
+			AcceptingContracts:  true,
+			WalletAddress:       h2.Addr,
+			MaxCollateral:       types.Siacoins(10000),
+			MaxContractDuration: 5000,
+			RemainingStorage:    1000 * rhp4.SectorSize,
+			TotalStorage:        1000 * rhp4.SectorSize,
+			Prices:              BasePrices(),
+		})
+		h2.Sectors = testutil.NewEphemeralSectorStore()
+		ec2 := testutil.NewEphemeralContractor(h2.Node.CM)
+		h2.Contractor = &Contractor{EphemeralContractor: ec2}
+		h2.Node.mu.Lock()
+		h2.Node.contractors = append(h2.Node.contractors, ec2)
+		h2.Node.mu.Unlock()
+		if err := l.Mine(types.VoidAddress, 1); err != nil {
+			return nil, err
+		}
+		h2.Server = rhp.NewServer(h2.Key, h2.Node.CM, h2.Contractor, h2.Wallet, h2.Settings, h2.Sectors,
+			rhp.WithPriceTableValidity(12*time.Hour), rhp.WithRPCTimeout(10*time.Minute))
+		h2.T = NewTransport(h2.Key.PublicKey())
+		go h2.Server.Serve(h2.T.Mux(), log)
+		ctx, cancel := Ctx()
+		st, err := rhp.RPCSettings(ctx, h2.T)
+		cancel()
+		if err != nil {
+			return nil, fmt.Errorf("%w: settings of the second host: %v", ErrHarness, err)
+		}
+		h2.Prices = st.Prices
+	}
 	if err := l.RefreshPrices(); err != nil {
 		return nil, err
 	}
@@ -185,6 +253,12 @@ func (l *Lab) Close() {
 	l.Contractor.EphemeralContractor.Close()
 	l.HostWallet.W.Close()
 	l.RentWallet.W.Close()
+	if h2 := l.Host2; h2 != nil {
+		h2.T.Close()
+		h2.Server.Close()
+		h2.Contractor.EphemeralContractor.Close()
+		h2.Wallet.W.Close()
+	}
 }
 
 // Mine mines count blocks on the host node and relays them to the renter node.
@@ -207,6 +281,11 @@ func (l *Lab) Relay(blocks []types.Block, toRenter bool) error {
 	if l.Observer != nil {
 		if err := l.Observer.AddBlocks(blocks); err != nil {
 			return fmt.Errorf("%w: relaying to observer node: %v", ErrHarness, err)
+		}
+	}
+	if l.Host2 != nil {
+		if err := l.Host2.Node.AddBlocks(blocks); err != nil {
+			return fmt.Errorf("%w: relaying to the second host's node: %v", ErrHarness, err)
 		}
 	}
 	return nil
